@@ -224,8 +224,8 @@ def run(ctx):
     if stats.get("known_rounds", 0) and not stats.get("known_rounds_reproduced", 0):
         ctx.notes["recorded_finding_not_reproduced"] = True
         ctx.log("NOTE: the recorded finding (in-place op on SliceReader-decoded shared input) was not reproduced in this run")
-    ctx.cov["rule"] = ("corr: %d generated sequential op programs (decode via Reader / SliceReader of 15 shared inputs or of own buffers, Info, "
-                       "Encode, EncodeSW, GetFullSamples, InitProtect+EncryptFragment cenc/cbcs, DecryptInit+DecryptSegment, NAL conversions), "
+    ctx.cov["rule"] = ("corr: %d generated sequential op programs (decode via Reader / SliceReader of ~50 shared inputs (clear and cenc/cbcs-protected init, media and init+media buffers for avc/hevc/aac; 8/16-byte per-sample IVs, 8/16-byte constant IVs, seig sample groups) or of own buffers, Info, "
+                       "Encode, EncodeSW, GetFullSamples, InitProtect+EncryptFragment cenc/cbcs, DecryptInit+DecryptSegment (init and media in one or in separate objects, any decode path for either; DecryptInfo own or shared between goroutines), NAL conversions), "
                        "after every op: aliasing of the target object by pointer range over every reachable []byte, byte comparison of every shared input with its pristine copy; "
                        "search: %d independent rounds of 2-16 goroutines (random start skew, Gosched injection) + %d rounds of the recorded "
                        "scenario, oracles: race detector (%s), per-op and final digests vs the sequential run on private copies, input hashes; "
